@@ -116,6 +116,7 @@ def work(ctx, tier):
                     _one(ctx, sc, e, stats)
             ctx.inc("systematic_abort_flag_scenarios")
     common.crossing_slice(ctx, tier, common.rng_for(ctx, "crossing"), lambda sc, e: _one(ctx, sc, e, stats))
+    common.default_limits_slice(ctx, lambda sc, e: _one(ctx, sc, e, stats))
     common.reconfig_slice(ctx, tier, common.rng_for(ctx, "reconfig"), lambda sc, e: _one(ctx, sc, e, stats))
     # whole sync calls racing in threads on one budget: a retry needs a token granted to THAT call, a refusal must be reported
     tconc.thread_slice(ctx, tier, common.rng_for(ctx, "threads"), ["tokens"], budget=True, breaker=False)
